@@ -82,8 +82,15 @@ fn rand_tid(rng: &mut StdRng) -> Vec<u8> {
 async fn server(net: Net, seed: u64, v6net: bool, read_only: bool, nq: u64, fat: u64) {
     let mut rng = StdRng::seed_from_u64(seed);
     let my_id = rand_id(&mut rng);
-    let nodes = oracle_universe(&mut rng, 40, v6net, Some(my_id));
-    let mut nodes = nodes;
+    let mut nodes = oracle_universe(&mut rng, if v6net { 60 } else { 100 }, v6net, Some(my_id));
+    if !v6net {
+        // plus uniformly placed ids so that the first buckets fill up (a table of 60+ contacts)
+        let more = oracle_universe(&mut rng, 400, false, None);
+        for (i, mut m) in more.into_iter().enumerate() {
+            m.addr = v4(10, 2, (i >> 8) as u8, (i & 255) as u8, 6881);
+            nodes.push(m);
+        }
+    }
     nodes[1].mode = Mode::EchoQuery; // a bootstrap contact that queries us with the transaction id we just used towards it
     let oracle = Arc::new(Mutex::new(OracleNet::new(nodes)));
     let addrs = oracle.lock().unwrap().addrs();
@@ -130,7 +137,8 @@ async fn server(net: Net, seed: u64, v6net: bool, read_only: bool, nq: u64, fat:
     for _ in 0..nq {
         let src = reqs[rng.gen_range(0..reqs.len())];
         let t = rand_tid(&mut rng);
-        let qid = rand_id(&mut rng);
+        // usually a stranger's id; sometimes the id of a contact in the node's table, sent from a different address
+        let qid = if rng.gen_range(0..6) == 0 { table_ids[rng.gen_range(0..table_ids.len())] } else { rand_id(&mut rng) };
         let want = match rng.gen_range(0..5) { 0 => Some("n4"), 1 => Some("n6"), 2 => Some("both"), _ => None };
         let target = match rng.gen_range(0..5) {
             0 => my_id,
@@ -154,6 +162,7 @@ async fn server(net: Net, seed: u64, v6net: bool, read_only: bool, nq: u64, fat:
                     6 if !other.is_empty() => other[rng.gen_range(0..other.len())].1.clone(),
                     7 => (0..20).map(|_| rng.gen()).collect(),
                     8 => (0..rng.gen_range(0..40usize)).map(|_| rng.gen()).collect(),
+                    9 if rng.gen_bool(0.6) => { let b = *[0xffu8, 0x80, 0xfe, 0xc0].get(rng.gen_range(0..4)).unwrap(); vec![b; rng.gen_range(300..1000usize)] }
                     _ => vec![],
                 };
                 match rng.gen_range(0..4) {
